@@ -39,7 +39,10 @@ import (
 	sdkmath "cosmossdk.io/math"
 	dbm "github.com/cometbft/cometbft-db"
 	abci "github.com/cometbft/cometbft/abci/types"
+	"github.com/cometbft/cometbft/libs/log"
 	tmproto "github.com/cometbft/cometbft/proto/tendermint/types"
+	"github.com/cosmos/cosmos-sdk/baseapp"
+	simtestutil "github.com/cosmos/cosmos-sdk/testutil/sims"
 	sdk "github.com/cosmos/cosmos-sdk/types"
 	authtypes "github.com/cosmos/cosmos-sdk/x/auth/types"
 	sdkvesting "github.com/cosmos/cosmos-sdk/x/auth/vesting/types"
@@ -51,6 +54,8 @@ import (
 	slashingtypes "github.com/cosmos/cosmos-sdk/x/slashing/types"
 	stakingtypes "github.com/cosmos/cosmos-sdk/x/staking/types"
 
+	"github.com/haqq-network/haqq/app"
+	"github.com/haqq-network/haqq/encoding"
 	"github.com/haqq-network/haqq/utils"
 	erc20types "github.com/haqq-network/haqq/x/erc20/types"
 	liquidvestingtypes "github.com/haqq-network/haqq/x/liquidvesting/types"
@@ -80,6 +85,44 @@ type brCfg struct {
 	SlashDouble   string     `json:"slashDouble"`   // decimal fraction
 	SlashDowntime string     `json:"slashDowntime"` // decimal fraction
 	Params        *brParams  `json:"params,omitempty"` // non-default configuration at genesis
+	// the network the application runs as and the height its first block has: the identity of the chain
+	// ("" = the main network id of the other drivers) and genesis initial_height (0 = 1)
+	ChainID       string `json:"chainId,omitempty"`
+	InitialHeight int64  `json:"initialHeight,omitempty"`
+}
+
+func (c brCfg) chainID() string {
+	if c.ChainID == "" {
+		return ChainID
+	}
+	return c.ChainID
+}
+
+func (c brCfg) h0() int64 {
+	if c.InitialHeight < 1 {
+		return 1
+	}
+	return c.InitialHeight
+}
+
+// brNetworks are the chain ids a scenario may run as: the four networks the code base knows by name
+// (utils.MainNetChainID ...; the epoch number is free) and one it does not know.
+var brNetworks = []string{utils.MainNetChainID + "-1", utils.TestEdge1ChainID + "-1", utils.TestEdge2ChainID + "-3",
+	utils.LocalNetChainID + "-1", "haqq_7777-2"}
+
+// brNetClass names the network of a chain id with the code's own predicates.
+func brNetClass(id string) string {
+	switch {
+	case utils.IsMainNetwork(id):
+		return "main"
+	case utils.IsTestEdge1Network(id):
+		return "testedge1"
+	case utils.IsTestEdge2Network(id):
+		return "testedge2"
+	case utils.IsLocalNetwork(id):
+		return "local"
+	}
+	return "other"
 }
 
 // brParams is the part of the genesis configuration that the redirect must not depend on.
@@ -239,14 +282,17 @@ func brGenesis(w *World, cfg brCfg) map[string]json.RawMessage {
 
 func brNewNode(w *World, cfg brCfg) *Node {
 	n := &Node{W: w, DB: dbm.NewMemDB(), Time: GenesisTime}
-	n.App = openApp(n.DB)
+	// chainkit's openApp with the chain id of the scenario
+	n.App = app.NewHaqq(log.NewNopLogger(), n.DB, nil, true, map[int64]bool{}, app.DefaultNodeHome, 0,
+		encoding.MakeConfig(app.ModuleBasics), simtestutil.AppOptionsMap{"home": app.DefaultNodeHome}, baseapp.SetChainID(cfg.chainID()))
 	stateBytes, err := json.Marshal(brGenesis(w, cfg))
 	if err != nil {
 		panic(err)
 	}
-	n.App.InitChain(abci.RequestInitChain{ChainId: ChainID, Time: GenesisTime, Validators: []abci.ValidatorUpdate{},
-		ConsensusParams: w.ConsensusParams(), AppStateBytes: stateBytes, InitialHeight: 1})
-	n.Header = tmproto.Header{ChainID: ChainID, Height: 1, Time: GenesisTime}
+	n.App.InitChain(abci.RequestInitChain{ChainId: cfg.chainID(), Time: GenesisTime, Validators: []abci.ValidatorUpdate{},
+		ConsensusParams: w.ConsensusParams(), AppStateBytes: stateBytes, InitialHeight: cfg.h0()})
+	n.Header = tmproto.Header{ChainID: cfg.chainID(), Height: cfg.h0(), Time: GenesisTime}
+	n.Height = cfg.h0() - 1
 	return n
 }
 
@@ -333,6 +379,7 @@ func (x *brExec) envOf(ctx sdk.Context) M {
 	ep := a.Erc20Keeper.GetParams(ctx)
 	sp := a.SlashingKeeper.GetParams(ctx)
 	return M{
+		"chainId": ctx.ChainID(), "net": brNetClass(ctx.ChainID()), "h0": x.cfg.h0(),
 		"sendDefault": a.BankKeeper.GetParams(ctx).DefaultSendEnabled, "send": send,
 		"tax": dp.CommunityTax.BigInt().String(), "withdrawAddr": dp.WithdrawAddrEnabled,
 		"burnVeto": gp.BurnVoteVeto, "burnPrevote": gp.BurnProposalDepositPrevote, "burnQuorum": gp.BurnVoteQuorum,
@@ -540,6 +587,7 @@ func (x *brExec) project(ctx sdk.Context) M {
 		"dels":         dels,
 		"props":        props,
 		"env":          x.envOf(ctx),
+		"height":       ctx.BlockHeight(),
 	}
 }
 
@@ -559,14 +607,14 @@ func (x *brExec) beginBlock(dtMs int64, proposer int, absent []int, evid []brEvi
 	n.Time = n.Time.Add(time.Duration(dtMs) * time.Millisecond)
 	h := n.Height + 1
 	prop := n.W.Vals[proposer%len(n.W.Vals)]
-	n.Header = tmproto.Header{ChainID: ChainID, Height: h, Time: n.Time, ProposerAddress: prop.ConsAddr(), AppHash: n.LastHash}
+	n.Header = tmproto.Header{ChainID: x.cfg.chainID(), Height: h, Time: n.Time, ProposerAddress: prop.ConsAddr(), AppHash: n.LastHash}
 	abs := map[int]bool{}
 	for _, i := range absent {
 		abs[i] = true
 	}
 	var votes []abci.VoteInfo
 	powers := make([]int64, len(n.W.Vals))
-	if n.Height >= 1 {
+	if n.Height >= x.cfg.h0() {
 		ctx := n.App.BaseApp.NewContext(true, tmproto.Header{Height: n.Height})
 		for i, v := range n.W.Vals {
 			val, found := n.App.StakingKeeper.GetValidatorByConsAddr(ctx, v.ConsAddr())
@@ -769,10 +817,10 @@ func brInts(a []int) []any {
 
 // preCtx is a context on the state the next BeginBlock starts from.
 func (x *brExec) preCtx() sdk.Context {
-	if x.n.Height == 0 {
+	if x.n.Height < x.cfg.h0() {
 		return x.n.App.BaseApp.NewContext(false, x.n.Header) // deliver state left by InitChain
 	}
-	return x.n.App.BaseApp.NewContext(true, tmproto.Header{Height: x.n.Height, Time: x.n.Time})
+	return x.n.App.BaseApp.NewContext(true, tmproto.Header{ChainID: x.cfg.chainID(), Height: x.n.Height, Time: x.n.Time})
 }
 
 func brBig(s any) *big.Int {
@@ -832,7 +880,17 @@ func (x *brExec) buildTx(t M) ([]byte, error) {
 	n, w := x.n, x.w
 	from := w.Acct(brStr(t, "from"))
 	gasPrice := big.NewInt(2_000_000_000)
-	cosmos := func(gas uint64, msgs ...sdk.Msg) ([]byte, error) { return n.CosmosTxFor(from, gas, gasPrice, msgs...) }
+	// chainkit's Node.CosmosTxFor, signed for the chain id of the scenario
+	cosmos := func(gas uint64, msgs ...sdk.Msg) ([]byte, error) {
+		acc := n.App.AccountKeeper.GetAccount(n.Ctx(), from.Addr)
+		if acc == nil {
+			return nil, fmt.Errorf("no account %s", from.Addr)
+		}
+		fee := sdk.NewCoins(sdk.NewCoin(utils.BaseDenom, sdkmath.NewIntFromBigInt(new(big.Int).Mul(gasPrice, new(big.Int).SetUint64(gas)))))
+		_, bz, err := BuildCosmosTx(from.Priv, CosmosTxOpts{Gas: gas, Fee: fee, ChainID: x.cfg.chainID(), AccNum: acc.GetAccountNumber(),
+			Seq: acc.GetSequence()}, msgs...)
+		return bz, err
+	}
 	val := func(k string) sdk.ValAddress { return w.Vals[x.valIdx(t, k)].ValAddr() }
 	propID := func() (uint64, error) {
 		id, ok := x.props[brStr(t, "prop")]
@@ -1020,10 +1078,10 @@ func (x *brExec) opSlash(op M) {
 		if evH > x.n.Height {
 			evH = x.n.Height
 		}
-		if evH < 1 {
+		if evH < x.cfg.h0() {
 			// no committed block yet: make one
 			x.block(1000, nil, nil, nil)
-			evH = 1
+			evH = x.cfg.h0()
 		}
 		power := int64(0)
 		if p, ok := x.powerAt[evH]; ok {
@@ -1226,7 +1284,8 @@ func brRunScenario(tw *TraceWriter, scn int, src string, sc brScript, stats map[
 	}
 	sort.Strings(x.denoms)
 	x.n = brNewNode(w, sc.Cfg)
-	x.timeAt[0] = GenesisTime
+	x.timeAt[sc.Cfg.h0()-1] = GenesisTime
+	x.lastAge = sc.Cfg.h0() - 1
 	ops := []any{}
 	for _, o := range sc.Ops {
 		ops = append(ops, o)
@@ -1238,7 +1297,11 @@ func brRunScenario(tw *TraceWriter, scn int, src string, sc brScript, stats map[
 			"burnVeto": sc.Cfg.BurnVeto, "burnPrevote": sc.Cfg.BurnPrevote, "burnQuorum": sc.Cfg.BurnQuorum}})
 	x.run(sc.Ops)
 	stats["scenarios"]++
-	stats["blocks"] += int(x.n.Height)
+	stats["blocks"] += int(x.n.Height - (sc.Cfg.h0() - 1))
+	stats["net:"+brNetClass(sc.Cfg.chainID())]++
+	if sc.Cfg.h0() > 1 {
+		stats["lateStart"]++
+	}
 }
 
 // ---------------------------------------------------------------------------------------
@@ -1246,6 +1309,11 @@ func brRunScenario(tw *TraceWriter, scn int, src string, sc brScript, stats map[
 
 func brRandomScript(r *rand.Rand, seed int64) brScript {
 	cfg := brDefaultCfg(seed)
+	// the network and the height of the first block (drawn from a source of their own: the histories
+	// themselves are the same for every choice)
+	rn := rand.New(rand.NewSource(seed*31 + 5))
+	cfg.ChainID = brNetworks[rn.Intn(len(brNetworks))]
+	cfg.InitialHeight = []int64{1, 1, 2, 1_000_000, 5_000_000}[rn.Intn(5)]
 	cfg.Genesis.Coinomics = r.Intn(2) == 0
 	cfg.Genesis.NoBaseFee = r.Intn(4) == 0
 	cfg.SlashDouble = []string{"0.05", "0.333333333333333333", "0.000000000000000007", "0.5", "0.07"}[r.Intn(5)]
